@@ -73,132 +73,150 @@ var reach = []struct {
 	{"share/vss/pedersen/dh.go", []string{"dhExchange", "newAEAD", "context"}},
 	{"sign/tbls/tbls.go", []string{"SigShare.Index", "SigShare.Value", "sliceUniqMap", "Recover"}},
 	{"share/poly.go", []string{"NewPriPoly", "PriPoly.Threshold", "PriPoly.Eval", "PriPoly.Commit", "PriPoly.Coefficients", "NewPubPoly", "PubPoly.Info", "PubPoly.Threshold", "PubPoly.Commit", "PubPoly.Eval", "PubPoly.Add", "RecoverCommit"}},
+	{"share/dkg/pedersen/pdkg.go", []string{"pdkg.Grouping", "pdkg.GetGroupPublicPoly", "pdkg.GetShareSecurity", "pdkg.GetGroupIDs", "pdkg.GetGroupNumber", "pdkg.GroupDissolve"}},
+	{"share/dkg/pedersen/pdkg_pipes.go", []string{"genPub", "sendToMembers", "askMembers", "genDealsAndSend"}},
 	{"dosnode/dos_stages.go", []string{"choseSubmitter", "genUserRandom", "genSysRandom", "dataParse", "genQueryResult", "dispatchSign", "recoverSign", "reportQueryResult", "padOrTrim"}},
 	{"dosnode/dos_query_handler.go", []string{"DosNode.queryLoop", "DosNode.handleQuery"}},
-	{"dosnode/dos_chain_handler.go", []string{"DosNode.onchainLoop", "DosNode.handleGrouping", "DosNode.groupInfo", "DosNode.handleCR", "byte32", "DosNode.isMember"}},
+	{"dosnode/dos_chain_handler.go", []string{"DosNode.onchainLoop", "DosNode.handleGrouping", "DosNode.groupInfo", "DosNode.handleCR", "byte32", "DosNode.isMember",
+		"DosNode.handleGroupFormation", "DosNode.handleRandom", "DosNode.handleBootstrap", "DosNode.handleGroupDissolve"}},
+	{"dosnode/dosnode.go", []string{"getBootIps", "unique"}},
+	// the chain-event half: translation of the contract bindings' events, the first-occurrence filter, the
+	// subscription fan-in; table entries are named <table>[<key>] (function literals of a package-level slice)
+	{"onchain/eth_subscribe.go", []string{"firstEvent", "ethAdaptor.SubscribeEvent", "getIndex", "getWsIndex", "replyError",
+		"proxyTable[SubscribeLogUpdateRandom]", "proxyTable[SubscribeLogUrl]", "proxyTable[SubscribeLogRequestUserRandom]", "proxyTable[SubscribeLogGrouping]",
+		"proxyTable[SubscribeLogPublicKeyAccepted]", "proxyTable[SubscribeLogGroupDissolve]", "crTable[SubscribeCommitrevealLogStartCommitreveal]"}},
+	{"onchain/eth_proxy.go", []string{"ethAdaptor.DisconnectWs"}},
+	{"onchain/eth_helpers.go", []string{"merge", "mergeError"}},
 }
 
 // Functions declared in the anchored files whose NAME is called from the reach set
 // but which are not reachable from peer input (name collision with a method of another
 // type, or reached only with locally produced arguments).
 var notReach = map[string]string{
-	"p2p.client.close":                          "local shutdown path",
-	"p2p.client.send":                           "outgoing requests only",
-	"p2p.server.Leave":                          "local shutdown",
-	"p2p.server.Request":                        "outgoing request API (arguments are local)",
-	"p2p.server.Reply":                          "outgoing reply API (arguments are local)",
-	"p2p.server.Listen":                         "accept loop; the peer-controlled part is receiveID",
-	"p2p.server.Join":                           "local API",
-	"p2p.server.GetID":                          "local accessor",
-	"p2p.server.MembersID":                      "delegates to serfNet.MembersID",
-	"p2p.server.NumOfMembers":                   "delegates to serfNet.NumOfPeers",
-	"p2p.server.SubscribeMsg":                   "local API",
-	"p2p.server.UnSubscribeMsg":                 "local API",
-	"p2p.server.SubscribeEvent":                 "local API",
-	"p2p.newClient":                             "builds the client around the *net.TCPConn the node's own Dial / Accept returned; no peer data",
-	"p2p.client.handShake":                      "wrapper of sendID/receiveID",
-	"p2p.client.run":                            "pipeline assembly",
-	"p2p.merge":                                 "channel plumbing (C14)",
-	"p2p.encodeProto":                           "outgoing messages only",
-	"p2p.writeTo":                               "outgoing frames (C15)",
-	"discover.serfNet.Leave":                    "local shutdown",
-	"discover.serfNet.Join":                     "local API",
-	"discover.serfNet.IsAlive":                  "local API",
-	"dkg.pdkg.Grouping":                         "pipeline assembly from local arguments",
-	"dkg.pdkg.GetGroupNumber":                   "local accessor",
-	"dkg.pdkg.GetShareSecurity":                 "local accessor",
-	"dkg.pdkg.GetGroupIDs":                      "local accessor",
-	"dkg.pdkg.GetGroupPublicPoly":               "local accessor",
-	"dkg.pdkg.GroupDissolve":                    "local accessor",
-	"dkg.stampSender":                           "writes a field of the message Loop just received (non-nil by the type switch); no peer-indexed access",
-	"dkg.fanOut":                                "channel plumbing (C14)",
-	"dkg.mergeErrors":                           "channel plumbing (C14)",
-	"dkg.genPub":                                "local key generation",
-	"dkg.sendToMembers":                         "outgoing messages",
-	"dkg.askMembers":                            "local registration",
-	"dkg.genDealsAndSend":                       "outgoing deals",
-	"dkg.DistKeyGenerator.Deals":                "own deals (local)",
-	"dkg.DistKeyGenerator.SetTimeout":           "not called by the pipeline",
-	"dkg.DistKeyGenerator.isInQUAL":             "not called by the pipeline",
-	"dkg.DistKeyGenerator.ProcessJustification": "not called by the pipeline (name collision with Verifier.ProcessJustification)",
-	"dkg.DistKeyShare.Public":                   "only used by Renew (not in the pipeline)",
-	"dkg.DistKeyShare.PriShare":                 "accessor, not in the pipeline",
-	"dkg.DistKeyShare.Renew":                    "not called by the pipeline",
-	"dkg.NewDistKeyGeneratorWithoutSecret":      "not called by the pipeline",
-	"vss.Dealer.EncryptedDeal":                  "own deals (local)",
-	"vss.Dealer.EncryptedDeals":                 "own deals (local)",
-	"vss.Dealer.PlaintextDeal":                  "testing helper",
-	"vss.Dealer.SecretCommit":                   "not called by the pipeline",
-	"vss.Dealer.Commits":                        "not called by the pipeline",
-	"vss.Dealer.Key":                            "accessor",
-	"vss.Dealer.SessionID":                      "accessor",
-	"vss.Dealer.SetTimeout":                     "not called by the pipeline",
-	"vss.Verifier.Key":                          "accessor",
-	"vss.Verifier.Index":                        "accessor",
-	"vss.Verifier.SessionID":                    "accessor",
-	"vss.Verifier.SetTimeout":                   "not called by the pipeline",
-	"vss.aggregator.cleanVerifiers":             "only from SetTimeout",
-	"vss.RecoverSecret":                         "not called by the node",
-	"vss.MinimumT":                              "not called by the node",
-	"vss.deriveH":                               "not called by the node",
-	"tbls.Sign":                                 "own share (local)",
-	"tbls.Verify":                               "not called by the node (Recover verifies inline)",
-	"share.PriShare.Hash":                       "name collision with Response.Hash",
-	"share.PubShare.Hash":                       "name collision with Response.Hash",
-	"share.CoefficientsToPriPoly":               "not called by the node",
-	"share.PriPoly.Secret":                      "not called by the node",
-	"share.PriPoly.Shares":                      "not called by the node",
-	"share.PriPoly.Add":                         "name collision with PubPoly.Add / Scalar.Add",
-	"share.PriPoly.Equal":                       "name collision with Point.Equal",
-	"share.PriPoly.Mul":                         "name collision with Point.Mul / Scalar.Mul",
-	"share.PriPoly.String":                      "name collision with fmt String",
-	"share.RecoverSecret":                       "not called by the node",
-	"share.xScalar":                             "only from RecoverSecret/RecoverPriPoly",
-	"share.xMinusConst":                         "only from RecoverPriPoly",
-	"share.RecoverPriPoly":                      "not called by the node",
-	"share.PubPoly.Shares":                      "not called by the node",
-	"share.PubPoly.Equal":                       "name collision with Point.Equal; PubPoly.Equal is not called by the node (F3, owned by C09)",
-	"share.PubPoly.Check":                       "not called by the node",
-	"dosnode.reportErr":                         "guarded error send helper (C14)",
-	"dosnode.mergeErrors":                       "channel plumbing (C14)",
-	"dosnode.fanIn":                             "channel plumbing (C14)",
-	"dosnode.dataFetch":                         "HTTP client (third party)",
-	"dosnode.genSign":                           "own share (local)",
-	"dosnode.registerGroup":                     "local result",
-	"dosnode.DosNode.handleGroupFormation":      "guardian bookkeeping on chain getters, no event fields",
-	"dosnode.DosNode.handleRandom":              "guardian bookkeeping on chain getters, no event fields",
-	"dosnode.DosNode.handleBootstrap":           "guardian bookkeeping on chain getters, no event fields",
-	"dosnode.DosNode.handleGroupDissolve":       "guardian bookkeeping on chain getters, no event fields",
-	"dosnode.DosNode.End":                       "local shutdown",
+	"p2p.client.close":                                 "local shutdown path",
+	"p2p.client.send":                                  "outgoing requests only",
+	"p2p.server.Leave":                                 "local shutdown",
+	"p2p.server.Request":                               "outgoing request API (arguments are local)",
+	"p2p.server.Reply":                                 "outgoing reply API (arguments are local)",
+	"p2p.server.Listen":                                "accept loop; the peer-controlled part is receiveID",
+	"p2p.server.Join":                                  "local API",
+	"p2p.server.GetID":                                 "local accessor",
+	"p2p.server.MembersID":                             "delegates to serfNet.MembersID",
+	"p2p.server.NumOfMembers":                          "delegates to serfNet.NumOfPeers",
+	"p2p.server.SubscribeMsg":                          "local API",
+	"p2p.server.UnSubscribeMsg":                        "local API",
+	"p2p.server.SubscribeEvent":                        "local API",
+	"p2p.newClient":                                    "builds the client around the *net.TCPConn the node's own Dial / Accept returned; no peer data",
+	"p2p.client.handShake":                             "wrapper of sendID/receiveID",
+	"p2p.client.run":                                   "pipeline assembly",
+	"p2p.merge":                                        "channel plumbing (C14)",
+	"p2p.encodeProto":                                  "outgoing messages only",
+	"p2p.writeTo":                                      "outgoing frames (C15)",
+	"discover.serfNet.Leave":                           "local shutdown",
+	"discover.serfNet.Join":                            "local API",
+	"discover.serfNet.IsAlive":                         "local API",
+	"dkg.stampSender":                                  "writes a field of the message Loop just received (non-nil by the type switch); no peer-indexed access",
+	"dkg.fanOut":                                       "channel plumbing (C14)",
+	"dkg.mergeErrors":                                  "channel plumbing (C14)",
+	"dkg.DistKeyGenerator.Deals":                       "own deals (local)",
+	"dkg.DistKeyGenerator.SetTimeout":                  "not called by the pipeline",
+	"dkg.DistKeyGenerator.isInQUAL":                    "not called by the pipeline",
+	"dkg.DistKeyGenerator.ProcessJustification":        "not called by the pipeline (name collision with Verifier.ProcessJustification)",
+	"dkg.DistKeyShare.Public":                          "only used by Renew (not in the pipeline)",
+	"dkg.DistKeyShare.PriShare":                        "accessor, not in the pipeline",
+	"dkg.DistKeyShare.Renew":                           "not called by the pipeline",
+	"dkg.NewDistKeyGeneratorWithoutSecret":             "not called by the pipeline",
+	"vss.Dealer.EncryptedDeal":                         "own deals (local)",
+	"vss.Dealer.EncryptedDeals":                        "own deals (local)",
+	"vss.Dealer.PlaintextDeal":                         "testing helper",
+	"vss.Dealer.SecretCommit":                          "not called by the pipeline",
+	"vss.Dealer.Commits":                               "not called by the pipeline",
+	"vss.Dealer.Key":                                   "accessor",
+	"vss.Dealer.SessionID":                             "accessor",
+	"vss.Dealer.SetTimeout":                            "not called by the pipeline",
+	"vss.Verifier.Key":                                 "accessor",
+	"vss.Verifier.Index":                               "accessor",
+	"vss.Verifier.SessionID":                           "accessor",
+	"vss.Verifier.SetTimeout":                          "not called by the pipeline",
+	"vss.aggregator.cleanVerifiers":                    "only from SetTimeout",
+	"vss.RecoverSecret":                                "not called by the node",
+	"vss.MinimumT":                                     "not called by the node",
+	"vss.deriveH":                                      "not called by the node",
+	"tbls.Sign":                                        "own share (local)",
+	"tbls.Verify":                                      "not called by the node (Recover verifies inline)",
+	"share.PriShare.Hash":                              "name collision with Response.Hash",
+	"share.PubShare.Hash":                              "name collision with Response.Hash",
+	"share.CoefficientsToPriPoly":                      "not called by the node",
+	"share.PriPoly.Secret":                             "not called by the node",
+	"share.PriPoly.Shares":                             "not called by the node",
+	"share.PriPoly.Add":                                "name collision with PubPoly.Add / Scalar.Add",
+	"share.PriPoly.Equal":                              "name collision with Point.Equal",
+	"share.PriPoly.Mul":                                "name collision with Point.Mul / Scalar.Mul",
+	"share.PriPoly.String":                             "name collision with fmt String",
+	"share.RecoverSecret":                              "not called by the node",
+	"share.xScalar":                                    "only from RecoverSecret/RecoverPriPoly",
+	"share.xMinusConst":                                "only from RecoverPriPoly",
+	"share.RecoverPriPoly":                             "not called by the node",
+	"share.PubPoly.Shares":                             "not called by the node",
+	"share.PubPoly.Equal":                              "name collision with Point.Equal; PubPoly.Equal is not called by the node (F3, owned by C09)",
+	"share.PubPoly.Check":                              "not called by the node",
+	"dosnode.reportErr":                                "guarded error send helper (C14)",
+	"dosnode.mergeErrors":                              "channel plumbing (C14)",
+	"dosnode.fanIn":                                    "channel plumbing (C14)",
+	"dosnode.dataFetch":                                "HTTP client (third party)",
+	"dosnode.genSign":                                  "own share (local)",
+	"dosnode.registerGroup":                            "local result",
+	"dosnode.DosNode.End":                              "local shutdown",
+	"onchain.ethAdaptor.Connect":                       "local reconnect path (configured URLs); no event data",
+	"onchain.ethAdaptor.DisconnectAll":                 "local reconnect / shutdown path; no event data",
+	"onchain.proxyTable[SubscribeLogValidationResult]": "not subscribed by onchainLoop (theorem event_flow_matches: loopSubs)",
+	"onchain.proxyTable[SubscribeLogInsufficientPendingNode]":  "not subscribed by onchainLoop (theorem event_flow_matches: loopSubs)",
+	"onchain.proxyTable[SubscribeLogInsufficientWorkingGroup]": "not subscribed by onchainLoop (theorem event_flow_matches: loopSubs)",
+	"onchain.proxyTable[SubscribeLogGroupingInitiated]":        "not subscribed by onchainLoop (theorem event_flow_matches: loopSubs)",
+	"onchain.proxyTable[SubscribeLogPublicKeySuggested]":       "not subscribed by onchainLoop (theorem event_flow_matches: loopSubs)",
+	"onchain.crTable[SubscribeCommitrevealLogCommit]":          "not subscribed by onchainLoop (theorem event_flow_matches: loopSubs)",
+	"onchain.crTable[SubscribeCommitrevealLogReveal]":          "not subscribed by onchainLoop (theorem event_flow_matches: loopSubs)",
+	"onchain.crTable[SubscribeCommitrevealLogRandom]":          "not subscribed by onchainLoop (theorem event_flow_matches: loopSubs)",
 }
 
 // Semantic sites the syntactic rules cannot see (method call through a possibly nil
 // interface / pointer held in a local): anchored by function + exact call text; the
 // extractor fails if the text no longer occurs. operand = what a nil guard must mention.
-type anchor struct{ fn, call, kind, operand string }
+type anchor struct {
+	fn, call, kind, operand string
+	cond                    string // when set: the site is guarded by an earlier terminating `if <cond>` (text), not by a nil comparison of the operand
+}
 
 var anchors = []anchor{
-	{"dkg.initDistKeyGenerator", "p.Equal(pub)", "ifaceslot", "p"},
-	{"vss.sessionID", "v.MarshalTo(h)", "ifaceslot", "v"},
-	{"dkg.getAndProcessDeals", "dkg.ProcessDeal(deal)", "deref", "dkg"},
-	{"dkg.getAndProcessResponses", "dkg.ProcessResponse(resp)", "deref", "dkg"},
-	{"p2p.server.messageDispatch", "reflect.TypeOf(msg.Msg.Message).String()", "ifacenil", "msg.Msg.Message"},
-	{"dosnode.recoverSign", "sign.ToBigInt()", "deref", "sign"},
-	{"dosnode.choseSubmitter", "lastSysRand.Uint64()", "deref", "lastSysRand"},
-	{"dosnode.DosNode.handleQuery", "useSeed.Bytes()", "deref", "useSeed"},
-	{"dosnode.DosNode.handleCR", "randSeed.Cmp(big.NewInt(1))", "deref", "randSeed"},
-	{"dosnode.DosNode.queryLoop", "req.ctx.Done()", "ifacenil", "req.ctx"},
+	{fn: "dkg.initDistKeyGenerator", call: "p.Equal(pub)", kind: "ifaceslot", operand: "p"},
+	{fn: "vss.sessionID", call: "v.MarshalTo(h)", kind: "ifaceslot", operand: "v"},
+	{fn: "dkg.getAndProcessDeals", call: "dkg.ProcessDeal(deal)", kind: "deref", operand: "dkg"},
+	{fn: "dkg.getAndProcessResponses", call: "dkg.ProcessResponse(resp)", kind: "deref", operand: "dkg"},
+	{fn: "p2p.server.messageDispatch", call: "reflect.TypeOf(msg.Msg.Message).String()", kind: "ifacenil", operand: "msg.Msg.Message"},
+	{fn: "dosnode.recoverSign", call: "sign.ToBigInt()", kind: "deref", operand: "sign"},
+	{fn: "dosnode.choseSubmitter", call: "lastSysRand.Uint64()", kind: "deref", operand: "lastSysRand"},
+	{fn: "dosnode.DosNode.handleQuery", call: "useSeed.Bytes()", kind: "deref", operand: "useSeed"},
+	{fn: "dosnode.DosNode.handleCR", call: "randSeed.Cmp(big.NewInt(1))", kind: "deref", operand: "randSeed"},
+	{fn: "dosnode.DosNode.queryLoop", call: "req.ctx.Done()", kind: "ifacenil", operand: "req.ctx"},
+	// the chain-event half: method calls through *big.Int / *big.Float / *http.Request locals
+	// (LogGrouping's NodeId is []common.Address: p.Bytes() has a value receiver)
+	{fn: "dosnode.DosNode.onchainLoop", call: "balance.Cmp(big.NewFloat(0.1))", kind: "deref", operand: "balance"},
+	{fn: "dosnode.DosNode.handleGroupDissolve", call: "gid.Cmp(big.NewInt(1))", kind: "deref", operand: "gid"},
+	{fn: "dosnode.getBootIps", call: "client.Do(req)", kind: "deref", operand: "req", cond: "err != nil"},
 }
 
 // message struct declarations: pointer / interface typed fields are the optional parts
 var messageFiles = []string{
 	"p2p/package.pb.go", "share/dkg/pedersen/dkg.pb.go", "share/vss/pedersen/vss.pb.go",
-	"share/vss/pedersen/vss.go", "share/poly.go",
+	"share/vss/pedersen/vss.go", "share/poly.go", "onchain/eventMsg.go",
 }
 var messageTypes = map[string]bool{
 	"Package": true, "ID": true, "PublicKey": true, "Deal": true, "Response": true, "Responses": true,
 	"EncryptedDeal": true, "Signature": true, "Justification": true, "PriShare": true, "PubShare": true,
 	"LogStartCommitReveal": true, "Any": true,
+	// payloads of the chain events onchainLoop handles: their *big.Int fields are the optional parts
+	"LogGrouping": true, "LogGroupDissolve": true, "LogPublicKeyAccepted": true, "LogUpdateRandom": true,
+	"LogRequestUserRandom": true, "LogUrl": true,
 }
 
 type site struct{ fn, kind, expr, guard string }
@@ -813,7 +831,12 @@ func (w *walker) call(c *ast.CallExpr, gs []guard) {
 	for i, an := range anchors {
 		if an.fn == w.fn && an.call == ct {
 			w.anchored[i] = true
-			w.add(an.kind, c, gs, w.guardNil(an.operand))
+			if an.cond != "" {
+				cond := an.cond
+				w.add(an.kind, c, gs, func(g guard) bool { return g.mode == "after" && g.cond == cond })
+			} else {
+				w.add(an.kind, c, gs, w.guardNil(an.operand))
+			}
 		}
 	}
 	if s, ok := c.Fun.(*ast.SelectorExpr); ok {
@@ -835,7 +858,7 @@ func (w *walker) call(c *ast.CallExpr, gs []guard) {
 }
 
 // madeIn: identifiers that fd assigns from make(chan …), make(map …) or a map literal
-func madeIn(fd *ast.FuncDecl) map[string]bool {
+func madeIn(body *ast.BlockStmt) map[string]bool {
 	m := map[string]bool{}
 	isMake := func(e ast.Expr) bool {
 		switch v := e.(type) {
@@ -852,7 +875,7 @@ func madeIn(fd *ast.FuncDecl) map[string]bool {
 		}
 		return false
 	}
-	ast.Inspect(fd.Body, func(n ast.Node) bool {
+	ast.Inspect(body, func(n ast.Node) bool {
 		if a, ok := n.(*ast.AssignStmt); ok && len(a.Lhs) == len(a.Rhs) {
 			for i, l := range a.Lhs {
 				if id, ok := l.(*ast.Ident); ok && isMake(a.Rhs[i]) {
@@ -866,9 +889,9 @@ func madeIn(fd *ast.FuncDecl) map[string]bool {
 }
 
 // nilCompared: the identifiers (other than err) that fd compares with nil
-func nilCompared(fd *ast.FuncDecl) map[string]bool {
+func nilCompared(body *ast.BlockStmt) map[string]bool {
 	m := map[string]bool{}
-	ast.Inspect(fd.Body, func(n ast.Node) bool {
+	ast.Inspect(body, func(n ast.Node) bool {
 		if b, ok := n.(*ast.BinaryExpr); ok && (b.Op == token.EQL || b.Op == token.NEQ) {
 			x, y := b.X, b.Y
 			if id, ok := x.(*ast.Ident); ok && id.Name == "nil" {
@@ -1014,6 +1037,151 @@ func cleanupFacts(repo string) (string, error) {
 	return b.String(), nil
 }
 
+// flowFacts: how a chain event travels from the contract binding to the handlers.
+//
+//	eventFlow  per entry of proxyTable / crTable: the payload literal `&Log…{Field: source, …}` and the
+//	           `&LogCommon{…}` wrapper it is put in (fields in source order)
+//	loopSubs   the subscription list onchainLoop passes to SubscribeEvent
+//	loopCases  the case types of onchainLoop's switch on the delivered event
+//	errValues  the error values the table entries send (first argument text of every replyError call's value)
+func flowFacts(repo string) (string, error) {
+	fset, f, err := ex.Parse(filepath.Join(repo, "onchain/eth_subscribe.go"))
+	if err != nil {
+		return "", err
+	}
+	type entry struct {
+		name, payload  string
+		fields, common [][2]string
+		errs           []string
+	}
+	var entries []entry
+	litFields := func(cl *ast.CompositeLit) (fs [][2]string) {
+		for _, el := range cl.Elts {
+			if kv, ok := el.(*ast.KeyValueExpr); ok {
+				fs = append(fs, [2]string{txt(fset, kv.Key), txt(fset, kv.Value)})
+			}
+		}
+		return
+	}
+	for _, d := range f.Decls {
+		gd, ok := d.(*ast.GenDecl)
+		if !ok || gd.Tok != token.VAR {
+			continue
+		}
+		for _, sp := range gd.Specs {
+			vs := sp.(*ast.ValueSpec)
+			for vi, val := range vs.Values {
+				cl, ok := val.(*ast.CompositeLit)
+				if !ok || vi >= len(vs.Names) {
+					continue
+				}
+				for _, el := range cl.Elts {
+					kv, ok := el.(*ast.KeyValueExpr)
+					if !ok {
+						continue
+					}
+					fl, ok := kv.Value.(*ast.FuncLit)
+					if !ok {
+						continue
+					}
+					e := entry{name: vs.Names[vi].Name + "[" + txt(fset, kv.Key) + "]"}
+					ast.Inspect(fl.Body, func(n ast.Node) bool {
+						switch x := n.(type) {
+						case *ast.UnaryExpr:
+							if c, ok := x.X.(*ast.CompositeLit); ok && x.Op == token.AND {
+								switch tn := typeName(c.Type); {
+								case tn == "LogCommon":
+									e.common = append(e.common, litFields(c)...)
+								case strings.HasPrefix(tn, "Log"):
+									e.payload = tn
+									e.fields = append(e.fields, litFields(c)...)
+								}
+							}
+						case *ast.CallExpr:
+							if id, ok := x.Fun.(*ast.Ident); ok && id.Name == "replyError" && len(x.Args) == 3 {
+								t := txt(fset, x.Args[2])
+								if i := strings.Index(t, "{"); i > 0 {
+									t = t[:i]
+								}
+								e.errs = append(e.errs, t)
+							}
+						}
+						return true
+					})
+					entries = append(entries, e)
+				}
+			}
+		}
+	}
+	sort.Slice(entries, func(i, j int) bool { return entries[i].name < entries[j].name })
+	pairs := func(ps [][2]string) string {
+		var xs []string
+		for _, p := range ps {
+			xs = append(xs, fmt.Sprintf("(%s, %s)", ex.LeanStr(p[0]), ex.LeanStr(p[1])))
+		}
+		return "[" + strings.Join(xs, ", ") + "]"
+	}
+	strs := func(ss []string) string {
+		var xs []string
+		for _, x := range ss {
+			xs = append(xs, ex.LeanStr(x))
+		}
+		return "[" + strings.Join(xs, ", ") + "]"
+	}
+	var b strings.Builder
+	b.WriteString("/-- onchain/eth_subscribe.go: per table entry (name, payload type, payload literal fields, LogCommon literal fields, error values sent) -/\n")
+	b.WriteString("def eventFlow : List (String × String × List (String × String) × List (String × String) × List String) := [\n")
+	for i, e := range entries {
+		sep := ","
+		if i == len(entries)-1 {
+			sep = ""
+		}
+		fmt.Fprintf(&b, "  (%s, %s, %s, %s, %s)%s\n", ex.LeanStr(e.name), ex.LeanStr(e.payload), pairs(e.fields), pairs(e.common), strs(e.errs), sep)
+	}
+	b.WriteString("]\n\n")
+	// onchainLoop: subscription list and case types
+	fset2, f2, err := ex.Parse(filepath.Join(repo, "dosnode/dos_chain_handler.go"))
+	if err != nil {
+		return "", err
+	}
+	var subs, cases []string
+	for _, d := range f2.Decls {
+		fd, ok := d.(*ast.FuncDecl)
+		if !ok || fd.Name.Name != "onchainLoop" || fd.Body == nil {
+			continue
+		}
+		ast.Inspect(fd.Body, func(n ast.Node) bool {
+			switch x := n.(type) {
+			case *ast.CompositeLit:
+				if at, ok := x.Type.(*ast.ArrayType); ok && at.Len == nil && typeName(at.Elt) == "int" && subs == nil {
+					for _, el := range x.Elts {
+						subs = append(subs, typeName(el))
+					}
+				}
+			case *ast.TypeSwitchStmt:
+				if strings.Contains(txt(fset2, x.Assign), "event.(type)") {
+					for _, c := range x.Body.List {
+						cc := c.(*ast.CaseClause)
+						if cc.List == nil {
+							cases = append(cases, "default")
+						}
+						for _, t := range cc.List {
+							cases = append(cases, txt(fset2, t))
+						}
+					}
+				}
+			}
+			return true
+		})
+	}
+	if len(subs) == 0 || len(cases) == 0 {
+		return "", fmt.Errorf("flow facts: subscription list / event switch of onchainLoop not found")
+	}
+	fmt.Fprintf(&b, "/-- dosnode.onchainLoop: the subscription list handed to SubscribeEvent -/\ndef loopSubs : List String := %s\n\n", strs(subs))
+	fmt.Fprintf(&b, "/-- dosnode.onchainLoop: case types of the switch on the delivered event -/\ndef loopCases : List String := %s\n", strs(cases))
+	return b.String(), nil
+}
+
 func recvName(fd *ast.FuncDecl) string {
 	if fd.Recv == nil || len(fd.Recv.List) == 0 {
 		return ""
@@ -1033,6 +1201,15 @@ func qual(fd *ast.FuncDecl) string {
 		return r + "." + fd.Name.Name
 	}
 	return fd.Name.Name
+}
+
+func isBigInt(t ast.Expr) bool {
+	if se, ok := t.(*ast.SelectorExpr); ok {
+		if id, ok := se.X.(*ast.Ident); ok {
+			return id.Name == "big" && se.Sel.Name == "Int"
+		}
+	}
+	return false
 }
 
 func typeName(t ast.Expr) string {
@@ -1087,6 +1264,8 @@ func run(repo string) (string, error) {
 	var conds [][2]string
 	anchored := map[int]bool{}
 	declared := map[string][]string{} // bare name → qualified names declared in the anchored files
+	seenFile := map[string]bool{}
+	tableEntries := map[string]bool{} // function literals of package-level tables in the anchored files
 	listed := map[string]bool{}
 	calls := map[string]bool{}
 	for _, r := range reach {
@@ -1121,14 +1300,16 @@ func run(repo string) (string, error) {
 				continue
 			}
 			q := qual(fd)
-			declared[fd.Name.Name] = append(declared[fd.Name.Name], pkg+"."+q)
+			if !seenFile[r.file] {
+				declared[fd.Name.Name] = append(declared[fd.Name.Name], pkg+"."+q)
+			}
 			if !want[q] {
 				continue
 			}
 			delete(want, q)
 			listed[pkg+"."+q] = true
 			w := &walker{fset: fset, pkg: pkg, fn: pkg + "." + q, ptrField: ptrField, ifcField: ifcField, mapField: mapField,
-				mapLocal: map[string]bool{}, ptrParam: map[string]bool{}, seenParam: map[string]bool{}, alias: map[string]string{}, ptrMap: map[string]bool{}, nilLocal: map[string]string{}, nilCmp: nilCompared(fd), madeHere: madeIn(fd), sites: &sites, calls: calls, anchored: anchored, conds: &conds}
+				mapLocal: map[string]bool{}, ptrParam: map[string]bool{}, seenParam: map[string]bool{}, alias: map[string]string{}, ptrMap: map[string]bool{}, nilLocal: map[string]string{}, nilCmp: nilCompared(fd.Body), madeHere: madeIn(fd.Body), sites: &sites, calls: calls, anchored: anchored, conds: &conds}
 			for _, p := range fd.Type.Params.List {
 				switch pt := p.Type.(type) {
 				case *ast.MapType:
@@ -1136,7 +1317,7 @@ func run(repo string) (string, error) {
 						w.mapLocal[n.Name] = true
 					}
 				case *ast.StarExpr:
-					if messageTypes[typeName(pt.X)] {
+					if messageTypes[typeName(pt.X)] || isBigInt(pt.X) {
 						for _, n := range p.Names {
 							w.ptrParam[n.Name] = true
 						}
@@ -1145,8 +1326,53 @@ func run(repo string) (string, error) {
 			}
 			w.block(fd.Body.List, nil)
 		}
+		// function literals of a package-level table: `var t = []func(..){ Key: func(..) {..} }` → "t[Key]"
+		for _, d := range f.Decls {
+			gd, ok := d.(*ast.GenDecl)
+			if !ok || gd.Tok != token.VAR {
+				continue
+			}
+			for _, sp := range gd.Specs {
+				vs := sp.(*ast.ValueSpec)
+				for vi, val := range vs.Values {
+					cl, ok := val.(*ast.CompositeLit)
+					if !ok || vi >= len(vs.Names) {
+						continue
+					}
+					for _, el := range cl.Elts {
+						kv, ok := el.(*ast.KeyValueExpr)
+						if !ok {
+							continue
+						}
+						fl, ok := kv.Value.(*ast.FuncLit)
+						if !ok {
+							continue
+						}
+						q := vs.Names[vi].Name + "[" + txt(fset, kv.Key) + "]"
+						tableEntries[pkg+"."+q] = true
+						if !want[q] {
+							continue
+						}
+						delete(want, q)
+						listed[pkg+"."+q] = true
+						w := &walker{fset: fset, pkg: pkg, fn: pkg + "." + q, ptrField: ptrField, ifcField: ifcField, mapField: mapField,
+							mapLocal: map[string]bool{}, ptrParam: map[string]bool{}, seenParam: map[string]bool{}, alias: map[string]string{}, ptrMap: map[string]bool{}, nilLocal: map[string]string{}, nilCmp: nilCompared(fl.Body), madeHere: madeIn(fl.Body), sites: &sites, calls: calls, anchored: anchored, conds: &conds}
+						w.block(fl.Body.List, nil)
+					}
+				}
+			}
+		}
 		for fn := range want {
 			return "", fmt.Errorf("function %s not found in %s", fn, r.file)
+		}
+		seenFile[r.file] = true
+	}
+	// table entries that are neither listed nor classified
+	for q := range tableEntries {
+		if !listed[q] {
+			if _, ok := notReach[q]; !ok {
+				unlisted = append(unlisted, q)
+			}
 		}
 	}
 	for i, an := range anchors {
@@ -1213,6 +1439,12 @@ func run(repo string) (string, error) {
 		return "", err
 	}
 	b.WriteString(cl)
+	fl, err := flowFacts(repo)
+	if err != nil {
+		return "", err
+	}
+	b.WriteString("\n")
+	b.WriteString(fl)
 	b.WriteString("\nend Dos.Gen.PanicSites\n")
 	return b.String(), nil
 }
